@@ -62,6 +62,10 @@ private:
   // destruction
   void* key;
 
+  // The incarnation of the sandbox (see rlbox_sandbox::destroy_sandbox) in
+  // which the callback was registered
+  size_t incarnation;
+
   inline void move_obj(sandbox_callback&& other)
   {
     sandbox = other.sandbox;
@@ -69,6 +73,7 @@ private:
     callback_interceptor = other.callback_interceptor;
     callback_trampoline = other.callback_trampoline;
     key = other.key;
+    incarnation = other.incarnation;
     other.sandbox = nullptr;
     other.callback = nullptr;
     other.callback_interceptor = nullptr;
@@ -85,7 +90,8 @@ private:
       // 2) if this does happen, the worst that can happen is an invocation of a
       // null function pointer, which causes a crash that cannot be exploited
       // for RCE
-      sandbox->template unregister_callback<T_Ret, T_Args...>(key);
+      sandbox->template unregister_callback<T_Ret, T_Args...>(key,
+                                                                incarnation);
       sandbox = nullptr;
       callback = nullptr;
       callback_interceptor = nullptr;
@@ -106,12 +112,14 @@ private:
                    T_Callback p_callback,
                    T_Interceptor p_callback_interceptor,
                    T_Trampoline p_callback_trampoline,
-                   void* p_key)
+                   void* p_key,
+                   size_t p_incarnation)
     : sandbox(p_sandbox)
     , callback(p_callback)
     , callback_interceptor(p_callback_interceptor)
     , callback_trampoline(p_callback_trampoline)
     , key(p_key)
+    , incarnation(p_incarnation)
   {
     detail::dynamic_check(sandbox != nullptr,
                           "Unexpected null sandbox when creating a callback");
@@ -124,6 +132,7 @@ public:
     , callback_interceptor(nullptr)
     , callback_trampoline(0)
     , key(nullptr)
+    , incarnation(0)
   {}
 
   sandbox_callback(sandbox_callback&& other)
